@@ -31,9 +31,8 @@ class HierarchyWalker:
         elaborate(src)
 
         if isinstance(src, List):
-            for x in src:
-                self.visit_elaboratable(x)
-            return src
+            # (Modules are modified in place; calls of primitives and external modules are replaced by what their visit returns.)
+            return [self.visit_elaboratable(x) for x in src]
         if is_elaboratable(src):
             return self.visit_elaboratable(src)
         raise TypeError(f"Cannot walk non-elaboratable {src}")
